@@ -1,6 +1,7 @@
 package main
 
 import (
+	"os"
 	"math/big"
 	"fmt"
 	"go/ast"
@@ -362,7 +363,76 @@ func runC02(c *Ctx) {
 	nt := chordFn(c, "LocalNode", "Notify")
 	nsites := nt.betweenSites()
 	const pSnap = "recv.predecessor.ID()"
-	checkSite(c, "interval", nt, nsites, pSnap, "param#0.ID()", pSelf, false, false, "the notifying node is closer than the current predecessor: candidate in (oldPredecessor, self)")
+	ntSite := checkSiteSet(c, "interval", nt, nsites, pSnap, "param#0.ID()", pSelf, false, "the notifying node is closer than the current predecessor: candidate in (oldPredecessor, self)")
+	// consequence: the notifier becomes the candidate only when there was no predecessor, the
+	// old one did not answer a ping, or the notifier lies in (oldPredecessor, self): with
+	// those three edges removed no assignment of the notifier to the candidate is reachable
+	if ntSite != nil {
+		// the value an elementary test has when none of the three conditions holds (the
+		// predecessor exists, it answered the ping, the notifier is not in the interval)
+		plain := func(e ast.Expr) (bool, bool) {
+			e = ast.Unparen(e)
+			if e == ast.Expr(ntSite.call) {
+				return false, true
+			}
+			be, ok := e.(*ast.BinaryExpr)
+			if !ok || be.Op != token.EQL && be.Op != token.NEQ {
+				return false, false
+			}
+			x, y := be.X, be.Y
+			if isNilIdent(nt.Info, x) {
+				x, y = y, x
+			}
+			if !isNilIdent(nt.Info, y) {
+				return false, false
+			}
+			pv := nt.Prov(x)
+			switch {
+			case pv == "recv.predecessor":
+				return be.Op == token.NEQ, true // not nil
+			case strings.HasSuffix(pv, ".Ping()"):
+				return be.Op == token.EQL, true // nil error
+			}
+			return false, false
+		}
+		// an edge is removed when it cannot be taken unless one of the three conditions
+		// holds: its condition, evaluated with the plain values, is known to have the other
+		// truth value
+		isCut := func(at atom) bool {
+			if at.tag != nil {
+				return false
+			}
+			v, known := evalBool3(at.e, plain)
+			return known && v != at.truth
+		}
+		reached, _ := nt.Reach(nil, nil, func(b *cfgBlock, si int) bool {
+			for _, at := range nt.edgeAtoms(b, si) {
+				if os.Getenv("VERIF_DEBUG_FACTS") != "" {
+					fmt.Fprintf(os.Stderr, "notify edge atom %s=%v cut=%v\n", types.ExprString(at.e), at.truth, isCut(at))
+				}
+				if isCut(at) {
+					return true
+				}
+			}
+			return false
+		})
+		nadopt := 0
+		for _, nd := range shallowNodes(nt.Body) {
+			as, ok := nd.(*ast.AssignStmt)
+			if !ok || len(as.Lhs) != 1 || len(as.Rhs) != 1 || nt.varOf(as.Lhs[0]) == nil || nt.Prov(as.Rhs[0]) != "param#0" {
+				continue
+			}
+			nadopt++
+			bypass := false
+			for _, n := range reached {
+				if n == ast.Node(as) {
+					bypass = true
+				}
+			}
+			c.Ob("notify-consequence", "Notify#candidate-only-when-closer-or-predecessor-gone", as.Pos(), !bypass, "the notifying node becomes the candidate predecessor only if there is no predecessor, the old one is dead, or the notifier lies in (oldPredecessor, self)")
+		}
+		c.Floor("Notify candidate adoptions", nadopt, 1)
+	}
 	st := chordFn(c, "LocalNode", "stabilize")
 	ssites := st.betweenSites()
 	// head = succList[0]; newSucc = head.GetPredecessor()
